@@ -371,6 +371,8 @@ static int theplayer_depack(HIO_HANDLE *in, FILE *out, int version)
     for (i = 0; i < nins; i++) {
 	hio_seek(in, sdata_addr + saddr[i], SEEK_SET);
 	smp_buffer = (signed char *) calloc(1, smp_size[i]);
+	if (smp_buffer == NULL)
+	    return -1;
 	hio_read(smp_buffer, smp_size[i], 1, in);
 	if (delta == 1) {
 	    for (j = 1; j < smp_size[i]; j++) {
